@@ -166,6 +166,30 @@ func runC20(c *an.Ctx) {
 		})
 	}
 
+	// … and nothing else in package utils panics: the helpers the cases delegate to raise nothing of their
+	// own (a depth limit, a "cannot happen" check) for a tree the parser accepted
+	nPanic := 0
+	for _, g := range p.Units() {
+		if g.Pkg != p.Utils || g.Body == nil {
+			continue
+		}
+		for _, call := range p.CallsIn(g, "builtin.panic") {
+			nPanic++
+			inDefault := false
+			if g == visit {
+				for _, enc := range an.EnclosingStmts(g, call) {
+					if cc, ok := enc.(*ast.CaseClause); ok && cc.List == nil {
+						inDefault = true
+					}
+				}
+			}
+			if !inDefault {
+				c.Bad("C20.cases", g.Name+"/panics", call.Pos(), nil, "%s panics (%s): the walk of a template the parser accepted can end in a panic", g.Name, an.Str(call))
+			}
+		}
+	}
+	c.Note("panic calls in package utils: %d (the default arm of Visit)", nPanic)
+
 	var names []*types.Named
 	for n := range constructed {
 		names = append(names, n)
